@@ -307,7 +307,6 @@ def _mul_terms(xt, xr, yt, yr):
 
 
 REFINE = [True]
-_REFINE_CACHE = {}
 
 
 def _refine(x):
@@ -320,9 +319,10 @@ def _refine(x):
     if w <= SMALL_SPLIT or w > 64:
         return
     ctx = Ctx.cur
-    key = (id(ctx), len(ctx.pc), x.t.get_id())
-    if key in _REFINE_CACHE:
-        r = _REFINE_CACHE[key]
+    cache = ctx.__dict__.setdefault('refine_cache', {})      # lives and dies with the path context
+    key = x.t.get_id()
+    if key in cache and cache[key][0] is not None:
+        r = cache[key][0]
     else:
         r = None
         for (lo, hi) in ((0, 1), (-1, 1), (0, 2)):
@@ -330,7 +330,7 @@ def _refine(x):
                 if ctx.check(z3.Or(x.t < lo, x.t > hi)) == 'unsat':
                     r = (lo, hi)
                     break
-        _REFINE_CACHE[key] = r
+        cache[key] = (r, x.t)       # keep the term alive: ids are only unique among live terms
     if r is not None:
         x.lo, x.hi = max(x.lo, r[0]), min(x.hi, r[1])
 
@@ -480,7 +480,7 @@ def _pydivmod(a, b):
         if ctx.branch(b == 0):
             raise ZeroDivisionError('integer division or modulo by zero')
     qe, re = a / b, a % b
-    q = z3.If(z3.Or(b > 0, re == 0), qe, qe + 1)
+    q = z3.If(z3.Or(b > 0, re == 0), qe, qe - 1)       # b < 0, re != 0: floor(a/b) = qe - 1 (z3 div is Euclidean)
     v = ctx.concretize(q)
     return v, SymInt(a - v * b)
 
